@@ -20,7 +20,8 @@ RULE = ("part A: every registered command code (+ run-time registered + unknown 
         "dictionary AVPs (nesting <= 6, repeats, <= 64 KiB) built by E1, decoded generically "
         "(plain_msg, untyped and unknown commands) and typed; part C: sequences of 1..6 distinct "
         "search paths (length 1..4, hits, vendor-distinguished misses, absent codes) per freshly "
-        "decoded message. Non-trivial: >= 1 AVP (A/B) or a hit below depth 1 / vendor-distinguished "
+        "decoded message; part D: histories of 2..10 decode/register/replace operations on 4 command "
+        "codes (registration at run time must be honoured by every later decode). Non-trivial: >= 1 AVP (A/B) or a hit below depth 1 / vendor-distinguished "
         "miss (C); distinct by hash of the message bytes (+ paths).")
 ASSUME = ["payloads are type-valid (generic decoding of untyped commands reads every value)",
           "search paths: non-final elements are Grouped-typed; paths distinct per message (per-message cache keyed by path)",
@@ -321,6 +322,73 @@ def unregister(codes):
         all_commands.pop(c, None)
 
 
+LATE_CODES = [16000011, 16000012, 280, 272]
+
+
+def make_late_class(code, split, gen):
+    from diameter.message import DefinedMessage
+    ns = {}
+    name = f"VerifLate{code}g{gen}"
+
+    def post(self):
+        self.header.command_code = self.code
+        DefinedMessage.__post_init__(self)
+    base = type(name, (DefinedMessage,), {"code": code, "name": name, "__post_init__": post})
+    if split:
+        req = type(name + "Request", (base,), {})
+        ans = type(name + "Answer", (base,), {})
+        base.type_factory = classmethod(lambda cls, header: req if header.is_request else ans)
+    return base
+
+
+def check_registration_history(ops, rec: Recorder):
+    """ops: list of ("decode", code_idx, is_request, plain) | ("register", code_idx, split).
+    A command registered (or replaced) at any point of the history must be used
+    by every later decode."""
+    from diameter.message import Message
+    from diameter.message.commands import all_commands, register
+    saved = {c: all_commands.get(c) for c in LATE_CODES}
+    gen = 0
+    try:
+        seen_register = False
+        for op in ops:
+            if op[0] == "register":
+                gen += 1
+                register(make_late_class(LATE_CODES[op[1]], op[2], gen))
+                seen_register = True
+                continue
+            _, ci, is_req, plain = op
+            code = LATE_CODES[ci]
+            buf = R.enc_message(1, 0x80 if is_req else 0, code, 0, 1, 2,
+                                R.enc_avp(263, 0, 0x40, b"a;b"))
+            want = expected_class(code, is_req, plain)
+            try:
+                msg = Message.from_bytes(buf, plain_msg=plain)
+            except Exception as e:
+                rec.violation(f"C02/dispatch-history/raises/{type(e).__name__}", {"ops": ops}, repr(e))
+                break
+            if type(msg) is not want:
+                rec.violation("C02/dispatch-history/stale-class", {"ops": ops},
+                              f"after {ops}: code {code} R={is_req} plain={plain} decoded as {type(msg).__name__}, registry says {want.__name__}")
+                break
+        nreg = sum(1 for o in ops if o[0] == "register")
+        rec.case(fp("hist", tuple(map(tuple, ops))) if nreg and ops[-1][0] == "decode" else None,
+                 ["history:register-then-decode" if nreg else "history:decode-only"],
+                 sample=lambda: {"registration_history": ops})
+    finally:
+        for c, k in saved.items():
+            if k is None:
+                all_commands.pop(c, None)
+            else:
+                all_commands[c] = k
+
+
+def history_ops():
+    dec = st.tuples(st.just("decode"), st.integers(0, len(LATE_CODES) - 1), st.booleans(), st.booleans())
+    reg = st.tuples(st.just("register"), st.integers(0, len(LATE_CODES) - 1), st.booleans())
+    return st.lists(st.one_of(dec, dec, reg), min_size=2, max_size=10).map(lambda l: [list(x) for x in l])
+
+
 def shard_main(shard, nshards, tier, scale):
     rec = Recorder(PID)
     D = S.Dict()
@@ -361,6 +429,10 @@ def shard_main(shard, nshards, tier, scale):
         hyp.run_given(message_and_paths(D, codes), fbody, n_find, derive_seed(PID, "find", shard), rec=rec)
     finally:
         unregister(rt_codes)
+    # part D: histories of decode / register / replace (run last: it touches the registry)
+    n_hist = int((4000 if thorough else 300) * scale)
+    hyp.run_given(history_ops(), lambda ops: check_registration_history(ops, rec), n_hist,
+                  derive_seed(PID, "hist", shard), rec=rec)
     return rec.dump()
 
 
@@ -371,7 +443,7 @@ def run(tier, scale=1.0):
         rec.merge(d)
     required = {"cmd:typed-cmd": 1, "cmd:untyped-cmd": 1, "cmd:unknown-code": 1,
                 "find:deep-hit": 1, "find:vendor-miss": 1, "find:len4": 1, "depth:6": 1,
-                "navps:40+": 1}
+                "navps:40+": 1, "history:register-then-decode": 1}
     return finish(rec, tier=tier, level="exploration", rule=RULE, assumptions=ASSUME, t0=t0,
                   required_classes=required,
                   extra_cov={"exhaustive_part": "every registered command code (+2 run-time registered, +unknown codes) x all 256 flag octets"})
@@ -383,7 +455,9 @@ def replay(doc):
     rt = register_runtime_commands()
     try:
         case = doc["case"]
-        if "msg" in case:
+        if "ops" in case:
+            check_registration_history(case["ops"], rec)
+        elif "msg" in case:
             check_message(D, case["msg"], rec, paths=[case["path"]])
         else:
             check_message(D, case, rec)
